@@ -394,3 +394,34 @@ def make_dyhb_fail_synchronously(g, servers):
         for w in undo:
             w.__dict__.pop("callRemote", None)
     return restore
+
+
+def upload_with_big_ueb(g, data, extra, badsegs=(), convergence=b"verif"):
+    """Upload with one extra (legal, ignored by readers) UEB field of `extra` bytes, so that the UEB is longer than the
+    downloader's speculative 2 KiB read.  Only the upload side is touched (uri.pack_extension as seen by the encoder)."""
+    from allmydata import uri
+    from allmydata.immutable import encode
+    orig = uri.pack_extension
+    orig_size = encode.Encoder.get_uri_extension_size
+
+    def pack_with_extra(d):
+        d = dict(d)
+        d["x-uploader-note"] = b"n" * extra
+        return orig(d)
+
+    def size_with_extra(enc):
+        uri.pack_extension = orig          # the encoder checks the exact key set here: standard keys, real (larger) size
+        try:
+            n = orig_size(enc)
+        finally:
+            uri.pack_extension = pack_with_extra
+        return n + len(orig({"x-uploader-note": b"n" * extra}))
+    uri.pack_extension = pack_with_extra
+    encode.Encoder.get_uri_extension_size = size_with_extra
+    try:
+        if badsegs:
+            return bad_upload(g, data, list(badsegs), convergence)
+        return g.run(g.upload(data, convergence=convergence))
+    finally:
+        uri.pack_extension = orig
+        encode.Encoder.get_uri_extension_size = orig_size
